@@ -25,6 +25,9 @@ structure Cfg where
   /-- `Circuit.add` points the gate's result to the circuit the gate is added to, always
   (`false`: only when it has no circuit yet — the seeded variant C14-9) -/
   addRepoints : Bool := true
+  /-- an execution resets the measurement gates' shared results (`false`: the seeded variant C14-10
+  for density-matrix circuits, where the reset was moved into `M.apply` only) -/
+  resets : Bool := true
 deriving DecidableEq, Repr
 
 structure St where
@@ -67,14 +70,15 @@ def Op.isExec : Op → Bool
 def step (c : Cfg) (σ : St) : Op → St × Ans
   | .plain =>
     let e := σ.drawn.length
-    ({ σ with finals := σ.finals.set 0 (some e), cache := none, drawn := σ.drawn ++ [false] }, .created e)
+    ({ σ with finals := σ.finals.set 0 (some e), cache := if c.resets then none else σ.cache,
+              drawn := σ.drawn ++ [false] }, .created e)
   | .prep =>
     let e := σ.drawn.length
     let t := σ.finals.length
     let fin := σ.finals ++ [some e]
     ({ bound := if c.rebind then 0 else if c.addRepoints then t else σ.bound,
        finals := if c.rebind then fin.set 0 (some e) else fin,
-       cache := none, drawn := σ.drawn ++ [false] }, .created e)
+       cache := if c.resets then none else σ.cache, drawn := σ.drawn ++ [false] }, .created e)
   | .readGate =>
     match σ.cache with
     | some e => (σ, .rows e)
